@@ -97,6 +97,23 @@ CLAIMS.update({
 
 PENDING = {}
 
+# rules added after the first version of a claim (see the "As built" notes of DESIGN.md §4)
+ADDENDA = {
+ "C03": " Also decided (S3 tree links): a parse function returning a statement/expression list returns exactly its sub-parser results in order and every child link of a node is a sub-parser result or a node built on that path — scopes follow the tree, so a parser that flattens, drops or splices blocks is reported.",
+ "C05": " Also decided (S4, shared with C03): the parser hands every statement of a body or block to the tree, none dropped, reordered or spliced.",
+ "C06": " Also decided (S0): the faults are detected — the name rules of C03 (undefined name, redeclaration) and the call-protocol rules of C04 (callee kind, arity, built-in error) hold on every path to the operation; detection of operator, index, property and built-in faults is decided under C02, C11, C12, C17.",
+ "C07": " Also decided (P6 typed nil): no pointer whose provenance includes the nil constant is converted to an interface without a dominating nil test.",
+ "C08": " Also decided: S6 — a node that assignment() would accept as a target is never handed on unchanged by a function that consumed further tokens around it (parenthesised targets are rejected); S7 — comments and strings end exactly where the language says (shared with C09).",
+ "C09": " Also decided (S7 extents): a // comment stops only at a newline or the end of input, a /* */ comment only behind its first */ lying behind the opener, a string only behind its first quote; unterminated forms are reported only at the end of input; the number path adds its token unless ParseFloat of the unconditionally transliterated lexeme fails.",
+ "C12": " Also decided (S4, shared with C15): the print statement hands the whole value to the one text function (fmt %v), no hand-written traversal.",
+ "C14": " Also decided (S4, shared with C16/C18): nothing outside eval's dispatch tests the syntactic kind of an operand, so no operand expression is rewritten between parsing and evaluation.",
+ "C15": " Also decided: the text functions read and write no package-level state (the text of a value depends on the value alone).",
+ "C17": " Also decided: the call clause compares the argument count with Arity() for every callee before invoking it (shared with C04), which is what the fixed-arity built-ins rely on.",
+ "C19": " Also decided: unterminated comments and strings are reported exactly when the input ends inside one (shared extents rule), so a lexical error cannot be classified as success or the reverse.",
+}
+for _k, _v in ADDENDA.items():
+    CLAIMS[_k]["text"] += _v
+
 def main():
     props = [json.loads(l) for l in open('/verif/properties.jsonl')]
     checks, na = [], []
